@@ -441,6 +441,7 @@ func (c *Cluster) buildConfig(n *SimNode, cp CfgPlan) *Config {
 	n.gen++
 	conf.Events = &instEvents{n, n.gen}
 	conf.Delegate = n
+	conf.Merge = mergeDel{n}
 	conf.Conflict = conflictDel{n}
 	conf.Ping = pingDel{n}
 	conf.DNSConfigPath = "/nonexistent"
